@@ -174,10 +174,6 @@ impl<K: Ord, V: Val<A> + Debug, A: Ord + Hash + Clone + Debug> CmRDT for Map<K, 
                     .validate_op(dot)
                     .map_err(CmRDTValidation::SourceOrder)?;
                 let entry = self.entries.get(key).cloned().unwrap_or_default();
-                entry
-                    .clock
-                    .validate_op(dot)
-                    .map_err(CmRDTValidation::SourceOrder)?;
                 entry.val.validate_op(op).map_err(CmRDTValidation::Value)
             }
         }
